@@ -601,6 +601,14 @@ where
                     &config_task_inner,
                 );
 
+                #[cfg(feature = "verif-hooks")]
+                crate::verif_hooks::trace_entries(
+                    std::any::type_name::<ProcessorType>(),
+                    &path,
+                    file_contents.len(),
+                    &references,
+                );
+
                 if let Some(map_result) =
                     ProcessorType::map(&path, &file_contents, &params_task_inner, &references).await
                 {
